@@ -1,5 +1,6 @@
 """C57 Length-prefixed protobuf codecs round-trip and bound allocation."""
 import json
+from pathlib import Path
 
 META = {
     "level": "model_checking",
@@ -24,7 +25,7 @@ def run(c, codec=None, mc=None, mc_thorough=None):
     drv = c.build("drv-gscodec")
     if c.replay:
         t = c.rundir / "replay_trace.ndjson"
-        c.drive(drv, ["framing", "replay", c.replay, t])
+        c.drive(drv, ["framing", "replay", Path(c.replay).resolve(), t])
         traces = [t]
     else:
         t1 = c.rundir / "exh.ndjson"
